@@ -29,8 +29,11 @@ def search_plan(tier, disagreements):
 
 def run_case(stream, seed, ctx, params):
     rng = random.Random(seed)
-    if rng.random() < 0.1:
+    m_ = rng.random()
+    if m_ < 0.1:
         d = G.complement_chain_deck(rng)
+    elif m_ < 0.18:
+        d = G.union_complement_deck(rng)
     else:
         d = G.build_flat_deck(rng, macro_p=0.25, tr_p=0.15 if rng.random() < 0.3 else 0.0)
         D.vary_cards(d, rng)
